@@ -27,7 +27,7 @@ Proof. apply threads_isolated; vm_compute; reflexivity. Qed.
 (* non-vacuity: the same machine with one shared stack does get stuck *)
 Example thread_isolation_nonvacuous :
   let c1 := mkctx 4 Disabled in let c2 := mkctx 5 Enabled in
-  let o := mkobs 1 0 KDoNotConvert false None Unspecified false c1 2 in
+  let o := mkobs 1 0 KDoNotConvert false [] None Unspecified false c1 2 in
   let ps := fun t => match t with 0 => [EvPush c1; EvObs o; EvPop c1] | 1 => [EvPush c2; EvPop c2] | _ => [] end in
   let cs := fun _ : nat => [mkctx 0 Unspecified] in
   run false [0; 1; 0] ps cs = None /\ (exists r, run true [0; 1; 0] ps cs = Some r).
